@@ -329,7 +329,9 @@ func c13Run(job string) {
 			cur := p.v
 			okc := true
 			for i := 0; i < 12; i++ {
-				rr := eval(mustGen(fg, "m.replace(o->{k1:o.k1+x})", "m", "x"), cur, x)
+				// every link also offers a key outside the original key set, which must stay invisible
+				// (also in the link that flattens the chain)
+				rr := eval(mustGen(fg, "m.replace(o->{k1:o.k1+x,zz:x})", "m", "x"), cur, x)
 				if !rr.ok() {
 					okc = false
 					break
